@@ -127,6 +127,32 @@ theorem readBlocks_blocks (cfg : Cfg) (codec : Codec) (crc : Checksum) (blocks :
   rw [List.append_nil, readBlocksP_nil] at this
   simp [readBlocks, this]
 
+/-- `NewFileReader` on any file that starts with a valid V3 header and its name -/
+theorem openReader_prefix (h : FileHeader) (name tail : Bytes)
+    (hv : h.Valid) (h3 : h.version = 3) (hn : h.nameLength = name.length) :
+    openReader (encodeFileHeader h ++ (name ++ tail)) = .ok ⟨h, name⟩ := by
+  have hl := encodeFileHeader_length h
+  unfold openReader
+  rw [if_neg (by simp [hl])]
+  rw [take_append_len _ _ 64 hl, decodeFileHeader_encode h hv]
+  simp only [h3, beq_self_eq_true, Bool.true_and]
+  by_cases hz : 0 < h.nameLength
+  · simp only [hz, decide_true, if_true]
+    rw [if_neg (by simp [hl, hn])]
+    rw [drop_append_len _ _ 64 hl, hn, take_append_len _ _ _ rfl]
+  · have hz' : h.nameLength = 0 := by omega
+    have hne : name = [] := by
+      cases name with
+      | nil => rfl
+      | cons _ _ => simp at hn; omega
+    simp [hz', hne]
+
+theorem drop_dataStart (h : FileHeader) (name tail : Bytes) (h3 : h.version = 3) (hn : h.nameLength = name.length) :
+    (encodeFileHeader h ++ (name ++ tail)).drop h.dataStart = tail := by
+  have hds : h.dataStart = 64 + name.length := by simp [FileHeader.dataStart, h3, hn]
+  rw [hds, ← List.append_assoc]
+  exact drop_append_len _ _ _ (by simp [encodeFileHeader_length])
+
 /-- `NewFileReader` on a rendered V3 file -/
 theorem openReader_render (codec : Codec) (crc : Checksum) (h : FileHeader) (name : Bytes)
     (blocks : List (List Entry)) (hv : h.Valid) (h3 : h.version = 3) (hn : h.nameLength = name.length) :
